@@ -123,6 +123,7 @@ bool Executor::doCall(State &s, CallBase *cb) {
         }
         f = it->second;
     }
+    { auto rit = redirect.find(f); if (rit != redirect.end()) { redirectUsed.insert(f->getName().str()); f = rit->second; } }
     std::vector<Val> args;
     args.reserve(cb->arg_size());
     for (unsigned i = 0; i < cb->arg_size(); i++) args.push_back(eval(s, cb->getArgOperand(i)));
